@@ -512,7 +512,7 @@ Definition create_copied_sub_element_inner (self other : id) (pos m version : N)
    do anc <- ancestor_is (fuel_of w) (n_parent n) other;
    if anc then wfail ForbiddenCopyOfParent else
    do c <- deep_copy (fuel_of w) other version;
-   (* fix f5f3361: a copy of an identifiable type without SHORT-NAME is refused (the allocated copy stays as garbage) *)
+   (* fix a8ba45e: a copy of an identifiable type without SHORT-NAME is refused (the allocated copy stays as garbage) *)
    do cn0 <- get_node c;
    do nv <- wl (is_named_in_version T (n_type cn0) version);
    do id0 <- is_identifiable cn0;
@@ -575,18 +575,18 @@ Definition detach_from (parent c : id) : W unit :=
   (do pn <- get_node parent;
    match index_of (citem_is c) (n_content pn) with
    | Some k => set_node parent (set_content pn (remove_at (n_content pn) k))
-   | None => wfail ElementNotFound      (* fix dbf2768: position(..).ok_or(ElementNotFound)? *)
+   | None => wfail ElementNotFound      (* fix 72b7a48: position(..).ok_or(ElementNotFound)? *)
    end)%W.
 
 (* ElementRaw::move_element_position *)
 Definition move_element_position (self mv : id) (pos e : N) : W id :=
   (do n <- get_node self;
-   (* fix 4d404e9: the bound is the end of the insertion range (the moved element occupies one position of it) *)
+   (* fix fd5588f: the bound is the end of the insertion range (the moved element occupies one position of it) *)
    if pos <? e then
      match index_of (citem_is mv) (n_content n) with
      | Some cur => set_node self (set_content n (insert_at (remove_at (n_content n) cur) (N.to_nat pos) (CElem mv)));;
                    wret mv
-     | None => wfail ElementNotFound    (* fix dbf2768 *)
+     | None => wfail ElementNotFound    (* fix 72b7a48 *)
      end
    else wfail InvalidPosition)%W.
 
@@ -889,7 +889,7 @@ Definition e_set_item_name (h : N) (new_name : list N) : W unit :=
                             | re :: rr =>
                               do rn <- get_node re;
                               match n_content rn with
-                              | [] => set_node re (set_content rn [CData (DString refpath_new)])   (* fix 8b342ea: push when empty *)
+                              | [] => set_node re (set_content rn [CData (DString refpath_new)])   (* fix a58912b: push when empty *)
                               | _ :: tl => set_node re (set_content rn (CData (DString refpath_new) :: tl))
                               end;; upd_refs rr
                             end) reflist;;
@@ -1024,7 +1024,7 @@ Definition raw_set_attribute (h attr : N) (v : cdata) (version : N) : W unit :=
    match sp with
    | None => wfail InvalidAttribute
    | Some (_, spec, _, mask) =>
-     (* fix beb7751: an attribute that is not valid in the file version is rejected *)
+     (* fix 9d42e0a: an attribute that is not valid in the file version is rejected *)
      if N.land version mask =? 0 then wfail InvalidAttribute else
      do ok <- wl (check_value v spec version);
      if ok then
